@@ -86,6 +86,10 @@ pub struct Ctl {
     pub sched_on: AtomicBool,
     /// number of read_dir calls whose listing had >= 2 entries and was actually permuted
     pub permuted: AtomicU64,
+    /// report mutating calls that happen while recording is switched off by `quiet` (the
+    /// simulator's own observations: snapshots use pure observers only)
+    pub watch_quiet: AtomicBool,
+    pub quiet_offence: Mutex<Option<Rec>>,
 }
 
 impl std::fmt::Debug for Ctl {
@@ -106,6 +110,8 @@ impl Ctl {
             sched: Mutex::new(None),
             sched_on: AtomicBool::new(false),
             permuted: AtomicU64::new(0),
+            watch_quiet: AtomicBool::new(false),
+            quiet_offence: Mutex::new(None),
         })
     }
     pub fn take_log(&self) -> Vec<Rec> {
@@ -128,6 +134,12 @@ impl Ctl {
     fn record(&self, rec: Rec) {
         if self.rec_on.load(Ordering::Relaxed) {
             self.log.lock().unwrap().push(rec);
+        } else if rec.mutating && self.watch_quiet.load(Ordering::Relaxed) {
+            // a mutating call while the simulator only observes (its own snapshots run "quiet")
+            let mut o = self.quiet_offence.lock().unwrap();
+            if o.is_none() {
+                *o = Some(rec);
+            }
         }
     }
     fn yield_sched(&self, label: &'static str) {
